@@ -318,7 +318,10 @@ impl Sut for V {
         let r = guard(|| {
             let mut rc = reader_config(rcfg);
             if auth {
-                rc.failsafe_return_only_authenticated_data();
+                // default mode: either the untouched configuration or the explicit setter
+                if rcfg.explicit_auth_mode {
+                    rc.failsafe_return_only_authenticated_data();
+                }
             } else {
                 rc.failsafe_return_data_even_unauthenticated();
             }
